@@ -835,8 +835,8 @@ def imh_run_impl(case):
             r, p1, p2 = _patched([us])
             with p1, p2:
                 v2 = est()
-            res["twice_same"] = [float(x) for x in v2.reshape(-1)] == res["out"] or (
-                all(math.isnan(a) == math.isnan(b) and (math.isnan(a) or a == b) for a, b in zip([float(x) for x in v2.reshape(-1)], res["out"])))
+            res["twice_same"] = state["k"] == res["calls"] and ([float(x) for x in v2.reshape(-1)] == res["out"] or (
+                all(math.isnan(a) == math.isnan(b) and (math.isnan(a) or a == b) for a, b in zip([float(x) for x in v2.reshape(-1)], res["out"]))))
     except Exception as e:
         res["exc"] = exc_kind(e) + ": " + str(e)[:200]
     return res
@@ -1849,7 +1849,7 @@ def evaluate(case):
             rel = _imh_same_relation(case, res)
         if "twice_same" in res:
             rel.append(("the same Metropolis-Hastings estimator object run twice on the same proposals and uniforms returns the same "
-                        "estimate", res["twice_same"]))
+                        "estimate from the same number of proposal draws", res["twice_same"]))
         return dict(model=[imh_model_term(case, res)], spec=[], rel=rel, unique=False,
                     impl={"exc": res["exc"], "out": res.get("out"), "calls": res["calls"]})
     if fam == "dist":
@@ -2095,6 +2095,8 @@ def gen_audit_est(rng, quick):
                 c["c" + k] = json.loads(json.dumps(c["f" + k]))
     elif what == "relaxed":
         c = gen_est(rng, rng.choice(["st", "relax", "relax"]), small=quick)
+        while c["B"] != 2 and rng.random() < 0.6:    # expand() needs a batch
+            c = gen_est(rng, c["kind"], small=quick)
         c["param"] = rng.choice(["logits", "logits", "probs"])
         if c["param"] == "logits":
             c["fA"] = [[[0] * len(r) for r in row] for row in c["fA"]]
@@ -2114,6 +2116,8 @@ def gen_audit_est(rng, quick):
 
 def gen_audit_dist(rng):
     c = gen_dist(rng)
+    while c["B"] != 2 and rng.random() < 0.7:    # expand() needs a batch
+        c = gen_dist(rng)
     c["pre"] = rng.choice([None, "probs", "logits", "both", "both2"])
     c["dpos"] = rng.random() < 0.35
     c["playout"] = rng.choice(["step", "off", "tct", None])
@@ -2159,7 +2163,7 @@ def gen_audit_comb(rng):
 
 def gen_audit(chk, rng):
     quick = chk.tier != "thorough"
-    n_est, n_dist, n_comb = (40, 14, 70) if quick else (320, 120, 640)
+    n_est, n_dist, n_comb = (40, 16, 70) if quick else (320, 128, 640)
     cases = []
     for _ in range(n_est):
         cases.append(gen_audit_est(rng, quick))
